@@ -7,7 +7,7 @@
    denotations), GV.Front.LexStr (string literal denotations).  [parse] is the
    extracted function, fuel 8*|ts|+8. *)
 From Coq Require Import NArith ZArith List.
-From GV Require Import Front.Token Front.Parse Front.Print Front.Proofs Front.RoundTrip Front.RoundTripMain Front.Exact Front.Mono Front.ErrPos Front.Stat Front.StatPrint Front.StatRoundTrip Front.StatTotal Front.StatMono Front.Lex Front.LexProofs Front.LexStr Front.LexStrProofs.
+From GV Require Import Front.Token Front.Parse Front.Print Front.Proofs Front.RoundTrip Front.RoundTripMain Front.Exact Front.Mono Front.ErrPos Front.Stat Front.StatPrint Front.StatRoundTrip Front.StatRoundTripCor Front.StatNorm Front.StatRoundTripNorm Front.StatTotal Front.StatMono Front.Lex Front.LexProofs Front.LexStr Front.LexStrProofs.
 Import ListNotations.
 
 (* parse ∘ print: for EVERY expression tree over all 21 binary and 4 unary
@@ -156,3 +156,55 @@ Example C12_round6_rejections :
   (* function f(a,) end : a comma in a parameter list is followed by a name or '...' *)
   /\ parse_chunk [TFunction; TName 1; TLParen; TName 2; TComma; TRParen; TEnd] = Err [TRParen; TEnd].
 Proof. repeat split; vm_compute; reflexivity. Qed.
+
+(* ---- round 8: statements in context, unambiguity, statements with expression spellings *)
+(* one statement printed in front of anything that may follow a statement, parsed by
+   the statement parser at ANY nesting fuel >= 2*|tokens|+1: that statement, and the
+   rest is left.  Covers every constructor of [stat] (';' break goto label do while
+   repeat if/elseif/else numeric-for generic-for local(+attribs) assignment call
+   function / method / local function).  _partial as C12_parse_chunk_print_partial:
+   no 'function' EXPRESSIONS inside expressions. *)
+Theorem C12_stat_print_parse_partial : forall s, wf_stat s = true -> forall n rest,
+  (2 * length (pr_stat s) + 1 <= n)%nat -> follow rest ->
+  r_stat (sparsers_at n) (pr_stat s ++ rest) = Ok (s, rest).
+Proof. exact stat_print_parse. Qed.
+Print Assumptions C12_stat_print_parse_partial.
+
+(* a block printed in front of a block terminator (end/else/elseif/until/EOF), any fuel >= 2*|tokens|+2 *)
+Theorem C12_block_print_parse_partial : forall b, wf_block b = true -> forall n rest,
+  (2 * length (pr_block b) + 2 <= n)%nat -> block_stop rest ->
+  r_block (sparsers_at n) (pr_block b ++ rest) = Ok (b, rest).
+Proof. exact block_print_parse. Qed.
+Print Assumptions C12_block_print_parse_partial.
+
+(* the hypotheses are satisfiable: a while statement followed by 'end' *)
+Example C12_stat_context_example :
+  wf_stat (SWhile ETrue (BCons SBreak (BNil None))) = true /\ follow [TEnd] /\ block_stop [TEnd].
+Proof. repeat split. Qed.
+
+(* the concrete syntax is unambiguous: two well-formed chunks with the same tokens are the same chunk *)
+Theorem C12_print_chunk_injective_partial : forall b1 b2, wf_block b1 = true -> wf_block b2 = true ->
+  print_chunk b1 = print_chunk b2 -> b1 = b2.
+Proof. exact print_chunk_injective. Qed.
+Print Assumptions C12_print_chunk_injective_partial.
+
+(* statements whose expressions carry ANY spelling (a.k, f"s", f{...}, o:m"s", redundant
+   parentheses, long strings, Name= fields, ';' separators ...): the parser returns the
+   chunk with every expression replaced by its denotation.  [sp_block] (StatNorm.v) keeps
+   only the grammar's side conditions: assignment targets denote variables, call
+   statements denote calls, both begin with a name; non-empty lists.  _partial: no
+   'function' expressions inside expressions. *)
+Theorem C12_parse_chunk_print_spellings_partial :
+  forall b, sp_block b = true -> parse_chunk (print_chunk b) = Ok (norm_block b).
+Proof. exact parse_chunk_print_norm. Qed.
+Print Assumptions C12_parse_chunk_print_spellings_partial.
+
+(* satisfiable on a chunk outside [wf_block]:  v1.k2 = v3 [[s4]] ; v3:k5 {} ; return (v1) *)
+Example C12_sp_example :
+  let b := BCons (SAssign [EDot (EName 1) 2] [ECall (EName 3) None true [ELStr 4]])
+          (BCons (SCall (ECall (EName 3) (Some 5%N) true [ETable [] false]))
+          (BNil (Some [EParen (EName 1)]))) in
+  sp_block b = true /\ wf_block b = false /\ norm_block b = BCons (SAssign [EIndex (EName 1) (EStr 2)] [ECall (EName 3) None false [EStr 4]])
+                (BCons (SCall (ECall (EName 3) (Some 5%N) false [ETable [] false]))
+                (BNil (Some [EName 1]))).
+Proof. repeat split. Qed.
